@@ -437,11 +437,16 @@ def mdns_parse_unit(M):
         id_case = ex.choice("id_case", ["lower", "upper"])
         has_id = ex.fresh_bool("has_id")
         nums = ex.choice("numbers", ["all", "none"])
+        bare = ex.choice("key_without_value", ["none", "id", "c#", "md", "sf"])  # a TXT key that is present without '=value'
         props = {"md": "Model X", "pv": "1.1"}
         if has_id:
             props["id"] = ID_A if id_case == "lower" else ID_A.upper()
         if nums == "all":
             props.update({"c#": "12", "s#": "345", "sf": "1", "ci": "7", "ff": "2"})
+        if bare != "none":
+            props[bare] = None
+            if bare == "id":
+                has_id = False
         if key_case == "upper":
             props = {k.upper(): v for k, v in props.items()}
         elif key_case == "mixed":
@@ -459,9 +464,59 @@ def mdns_parse_unit(M):
         ex.tag("parsed")
         ex.require(d.id == ID_A, "the id is reported in lower case whatever the spelling of key and value")
         ex.require(d.address == usable[0] and d.addresses == usable, "link-local and unspecified addresses are skipped, order kept (IPv4 first as zeroconf lists them)")
-        want = (12, 345, 1, 7, 2) if nums == "all" else (0, 0, 0, 1, 0)
-        ex.require((d.config_num, d.state_num, int(d.status_flags), int(d.category), int(d.feature_flags)) == want,
-                   "configuration / state number, status flags, category and feature flags are the advertised ones (defaults when absent)")
-        ex.require(d.name == "My Device" and d.port == 8080 and d.model == "Model X" and d.protocol_version == "1.1", "name, port, model and protocol version are the advertised ones")
+        want = [12, 345, 1, 7, 2] if nums == "all" else [0, 0, 0, 1, 0]
+        if bare == "c#":
+            want[0] = 0
+        if bare == "sf":
+            want[2] = 0
+        ex.require([d.config_num, d.state_num, int(d.status_flags), int(d.category), int(d.feature_flags)] == want,
+                   "configuration / state number, status flags, category and feature flags are the advertised ones (defaults when absent or without a value)")
+        ex.require(d.name == "My Device" and d.port == 8080 and d.model == ("" if bare == "md" else "Model X") and d.protocol_version == "1.1",
+                   "name, port, model and protocol version are the advertised ones")
         return ex.observe([d.id, d.address])
+    return h
+
+
+CACHE_ORDERS = [["A"], ["bad", "A"], ["A", "bad", "B"], ["bad", "bad", "B"], ["B", "A", "bad"]]
+
+
+def startup_cache_unit(M):
+    """ZeroconfController._async_update_from_cache: every well-formed cached record is processed, a malformed PTR target is skipped"""
+    def h(ex):
+        order = ex.choice("cached_ptr_records", CACHE_ORDERS)
+        W = MdnsWorld(M, ex.fresh_bool("pairing_loaded_for_A"))
+        try:
+            zc = M.zc
+            infos = {"A": Info("dev-aa", {"id": ID_A, "c#": "1", "s#": "1", "sf": "0", "ci": "5"}, ["10.0.0.7"]),
+                     "B": Info("dev-11", {"id": ID_B, "c#": "1", "s#": "1", "sf": "0", "ci": "5"}, ["10.0.0.8"])}
+
+            class Rec:
+                def __init__(self, alias):
+                    self.alias = alias
+
+            def make(type_, name):
+                if name.startswith("bad"):
+                    raise zc.BadTypeInNameException("Type '%s' must end with '._tcp.local.' or '._udp.local.'" % name)
+                return infos[name]
+
+            zc.AsyncServiceInfo = make
+            W.ctl._async_get_ptr_records = lambda z: [Rec("bad.example." if k == "bad" else k) for k in order]
+
+            class Z:
+                pass
+
+            coro = W.ctl._async_update_from_cache(Z())
+            try:
+                coro.send(None)
+                done = False
+            except StopIteration:
+                done = True
+            ex.require(done, "(harness) nothing suspends: every record is in the cache")
+            want = {ID_A if k == "A" else ID_B for k in order if k != "bad"}
+            ex.require(set(W.ctl.discoveries) == want, "every well-formed cached record becomes a discovery, whatever malformed records precede it")
+            if "A" in order and W.ctl.pairings:
+                ex.require(len(W.ctl.pairings[ID_A].updates) == 1, "a loaded pairing is told about its cached record")
+        finally:
+            W.close()
+        return ex.observe(sorted(W.ctl.discoveries))
     return h
